@@ -6,6 +6,7 @@ import GlmVerif.Spec.C09
 import GlmVerif.Spec.C10
 import GlmVerif.Spec.C12
 import GlmVerif.Spec.C13
+import GlmVerif.Spec.C17
 import GlmVerif.Spec.C19
 namespace Glm.Spec
 def familiesOf : String → List Family
@@ -17,6 +18,7 @@ def familiesOf : String → List Family
   | "C10" => C10.families
   | "C12" => C12.families
   | "C13" => C13.families
+  | "C17" => C17.families
   | "C19" => C19.families
   | _ => []
 /-- refuted clauses (known findings) per property -/
